@@ -9,7 +9,11 @@
 //	code=<ok|sig|payload|PANIC> validated=<sorted SignedAddr|-> fallback=<addresses of the unvalidated copy, in order|->
 //	    cw=<CheckWitness bits on the validated copy>/<bits on the unvalidated copy>   (over the sorted union of both sets)
 //
-// Predicate: accepted => both copies authorize exactly the same accounts.
+// The op line's P= field (see siggen) is applied to the copy that is validated: GetSignatureAddresses() before
+// validation, validating twice, direct assignment of SignedAddr.
+//
+// Predicate: accepted => both copies authorize exactly the same accounts; the verdict and the validator's signer set do
+// not depend on the state of the object before validation.
 package main
 
 import (
@@ -124,6 +128,7 @@ func exec1(line string) hx.Result {
 	if txA.TxType == types.EIP155 {
 		return hx.Result{Out: "eip", Kind: "eip"}
 	}
+	_, _ = sg.ApplyPre(txA, pl.Raw, pl.Pre) // object state: getter / earlier pass / assignment before validation
 	code := verifyTx(txA)
 	res := hx.Result{}
 	if code == "PANIC" {
@@ -159,10 +164,24 @@ func exec1(line string) hx.Result {
 		}
 	}
 	res.Kind = bucket + " -> " + code
+	if len(pl.Pre) > 0 {
+		res.Kind += " [pre:" + pl.Pre[0][:1] + "]"
+		if fresh, err := types.TransactionFromRawBytes(append([]byte{}, pl.Raw...)); err == nil {
+			if fc := verifyTx(fresh); fc != code {
+				res.Class = "verdict-depends-on-object-state"
+				res.Fail = fmt.Sprintf("verdict %s after %s on the object, %s on a freshly decoded copy", code, strings.Join(pl.Pre, "."), fc)
+				return res
+			} else if fc == "ok" && sg.SortedAddrs(fresh.SignedAddr) != validated {
+				res.Class = "signers-depend-on-object-state"
+				res.Fail = "signer set established by the validator depends on the state of the object before validation"
+				return res
+			}
+		}
+	}
 	if code != "ok" {
 		return res
 	}
-	res.Key = hex.EncodeToString(sg.Sha256d(pl.Raw)[:8])
+	res.Key = hex.EncodeToString(sg.Sha256d(pl.Raw)[:8]) + strings.Join(pl.Pre, ".")
 	if bitsA == bitsB {
 		res.Kind += " same"
 		return res
